@@ -1,7 +1,7 @@
 SPECIFICATION Spec
 CONSTANTS
   Fam = "beam"
-  NW = 2
+  NW = 3
   HeadLeft = TRUE
   G <- Gram
   TagScores <- Scores013
